@@ -265,6 +265,92 @@ def gen(ctx):
     ptext((E.mont(1), E.mont(1), 0), None, 0, 1, "ptext:infinity")
     for (x, y, cls) in xy[:8] + [(0, 0, "(0,0)"), (P, 1, "x=p")]:
         cases.append(("hexpt %064x%064x" % (x, y), "(h_hexpt %s %s)" % (z(x), z(y)), "hexpt:" + cls, 30))
+    # --- SM9 G1 / G2 point import (raw octets, signature S, master public keys); Spec oracle only
+    p9 = 0xb640000002a3a6f1d603ab4ff58ec74521f2934b1a7aeedbe56f9b27e351457d
+    n9 = 0xb640000002a3a6f1d603ab4ff58ec74449f2934b18ea8beee56ee19cd69ecf25
+    P1 = (0x93DE051D62BF718FF5ED0704487D01D6E1E4086909DC3280E8C4E4817C66DDDD, 0x21FE8DDA4F21E607631065125C395BBC1C1C00CBFA6024350C464CD70A3EA616)
+    def a9(p1, p2):
+        if p1 is None: return p2
+        if p2 is None: return p1
+        (x1, y1), (x2, y2) = p1, p2
+        if x1 == x2:
+            if (y1 + y2) % p9 == 0: return None
+            lam = 3 * x1 * x1 * pow(2 * y1, -1, p9) % p9
+        else:
+            lam = (y2 - y1) * pow(x2 - x1, -1, p9) % p9
+        x3 = (lam * lam - x1 - x2) % p9
+        return (x3, (lam * (x1 - x3) - y1) % p9)
+    def m9(k, pt):
+        acc = None
+        while k:
+            if k & 1: acc = a9(acc, pt)
+            pt = a9(pt, pt); k >>= 1
+        return acc
+    g1 = [m9(k, P1) for k in range(1, 60)] + [m9(rnd() % n9, P1) for _ in range(6 * scale)]
+    fam1 = []
+    for (x, y) in g1[:12] + g1[59:]:
+        fam1.append((x, y, "valid"))
+        fam1.append((x, (p9 - y) % p9, "negated-y"))
+        fam1.append((x, (y + 1) % p9, "wrong-y"))
+    # coordinates >= p that are congruent to a valid point and still fit in 32 bytes
+    for (x, y) in g1:
+        if x + p9 < R: fam1.append((x + p9, y, "x+p-congruent"))
+        if y + p9 < R: fam1.append((x, y + p9, "y+p-congruent"))
+        if x + p9 < R and y + p9 < R: fam1.append((x + p9, y + p9, "xy+p-congruent"))
+    for v in (p9 - 1, p9, p9 + 1, M):
+        fam1 += [(v, P1[1], "x=%s" % ("p-1" if v == p9 - 1 else "p" if v == p9 else "p+1" if v == p9 + 1 else "2^256-1")),
+                 (P1[0], v, "y=%s" % ("p-1" if v == p9 - 1 else "p" if v == p9 else "p+1" if v == p9 + 1 else "2^256-1"))]
+    fam1 += [(0, 0, "(0,0)"), (rnd() % p9, rnd() % p9, "random-offcurve")]
+    def sm9sig_der(h, o):
+        return tlv(0x30, tlv(0x04, h.to_bytes(32, "big")) + bitstr(o))
+    for (x, y, cls) in fam1:
+        o = octs(4, x, y)
+        exp = "(h_sm9g1 4 %s %s)" % (z(x), z(y))
+        cases.append(("sm9g1 " + o.hex(), exp, "sm9g1:" + cls, 20))
+        cases.append(("sm9sig " + sm9sig_der(1 + rnd() % (n9 - 1), o).hex(), exp, "sm9sig:" + cls, 20))
+        cases.append(("sm9encmpk " + tlv(0x30, bitstr(o)).hex(), exp, "sm9encmpk:" + cls, 20))
+    for pre in (0, 2, 3, 5, 6):
+        cases.append(("sm9g1 " + octs(pre, P1[0], P1[1]).hex(), '"-1"', "sm9g1:prefix-%02x" % pre, 5))
+    # G2: F_p2 arithmetic with u^2 = -2, element a0 + a1 u sent as a1 || a0
+    def f2m(a, b): return ((a[0] * b[0] - 2 * a[1] * b[1]) % p9, (a[0] * b[1] + a[1] * b[0]) % p9)
+    def f2inv(a):
+        nrm = pow(a[0] * a[0] + 2 * a[1] * a[1], -1, p9)
+        return (a[0] * nrm % p9, (-a[1]) * nrm % p9)
+    def f2s(a, b): return ((a[0] - b[0]) % p9, (a[1] - b[1]) % p9)
+    def f2a(a, b): return ((a[0] + b[0]) % p9, (a[1] + b[1]) % p9)
+    P2 = ((0x3722755292130B08D2AAB97FD34EC120EE265948D19C17ABF9B7213BAF82D65B, 0x85AEF3D078640C98597B6027B441A01FF1DD2C190F5E93C454806C11D8806141),
+          (0xA7CF28D519BE3DA65F3170153D278FF247EFBA98A71A08116215BBA5C999A7C7, 0x17509B092E845C1266BA0D262CBEE6ED0736A96FA347C8BD856DC76B84EBEB96))
+    def t_add(p1, p2):
+        if p1 is None: return p2
+        (x1, y1), (x2, y2) = p1, p2
+        if x1 == x2:
+            lam = f2m(f2m((3, 0), f2m(x1, x1)), f2inv(f2a(y1, y1)))
+        else:
+            lam = f2m(f2s(y2, y1), f2inv(f2s(x2, x1)))
+        x3 = f2s(f2s(f2m(lam, lam), x1), x2)
+        return (x3, f2s(f2m(lam, f2s(x1, x3)), y1))
+    g2, acc = [], None
+    for k in range(1, 40):
+        acc = t_add(acc, P2); g2.append(acc)
+    def o2(X, Y, pre=4):
+        return bytes([pre]) + b"".join(v.to_bytes(32, "big") for v in (X[1], X[0], Y[1], Y[0]))
+    fam2 = []
+    for (X, Y) in g2[:6]:
+        fam2.append((X, Y, "valid"))
+        fam2.append((X, ((Y[0] + 1) % p9, Y[1]), "wrong-y"))
+    for (X, Y) in g2:
+        for i in range(2):
+            if X[i] + p9 < R:
+                X2 = list(X); X2[i] += p9; fam2.append((tuple(X2), Y, "x%d+p-congruent" % i))
+            if Y[i] + p9 < R:
+                Y2 = list(Y); Y2[i] += p9; fam2.append((X, tuple(Y2), "y%d+p-congruent" % i))
+    fam2 += [((p9, P2[0][1]), P2[1], "x0=p"), ((P2[0][0], M), P2[1], "x1=2^256-1"), (P2[0], (p9, P2[1][1]), "y0=p"), ((0, 0), (0, 0), "(0,0)")]
+    for (X, Y, cls) in fam2:
+        o = o2(X, Y)
+        exp = "(h_sm9g2 4 %s %s %s %s)" % (z(X[1]), z(X[0]), z(Y[1]), z(Y[0]))
+        cases.append(("sm9g2 " + o.hex(), exp, "sm9g2:" + cls, 20))
+        cases.append(("sm9signmpk " + tlv(0x30, bitstr(o)).hex(), exp, "sm9signmpk:" + cls, 20))
+    cases.append(("sm9g2 " + o2(P2[0], P2[1], 0).hex(), '"-1"', "sm9g2:prefix-00", 5))
     return cases
 
 
